@@ -5,6 +5,7 @@ import (
 	"io"
 	"io/ioutil"
 	"log"
+	"runtime"
 	"time"
 
 	"github.com/llir/ll/ast"
@@ -50,7 +51,22 @@ func ParseBytes(path string, b []byte) (*ir.Module, error) {
 // ParseString parses the given LLVM IR assembly file into an LLVM IR module,
 // reading from content. An optional path to the source file may be specified
 // for error reporting.
-func ParseString(path, content string) (*ir.Module, error) {
+func ParseString(path, content string) (m *ir.Module, err error) {
+	// The translation reports constructs it does not support yet (and enum
+	// keywords it does not know) by panicking with an error value; hand those to
+	// the caller as errors. Run-time errors (bugs) are not caught.
+	defer func() {
+		if e := recover(); e != nil {
+			if _, ok := e.(runtime.Error); ok {
+				panic(e)
+			}
+			ee, ok := e.(error)
+			if !ok {
+				panic(e)
+			}
+			m, err = nil, errors.Wrapf(ee, "unable to translate %q into an IR module", path)
+		}
+	}()
 	parseStart := time.Now()
 	tree, err := ast.Parse(path, content)
 	if err != nil {
